@@ -411,7 +411,9 @@ func genRestore(r *rand.Rand, sc *Scenario) {
 		case 3:
 			sc.Steps = append(sc.Steps, Step{At: t + 1, Act: "transfer", N: []int{-1}})
 		}
-		sc.Steps = append(sc.Steps, Step{At: t + 2 + r.Intn(3), Act: "restore", V: []float64{float64(r.Intn(5))}}, Step{At: t + 3 + r.Intn(5), Act: "burst", N: []int{r.Intn(5)}})
+		rt := t + 2 + r.Intn(3)
+		// writes dispatched in the very instant of the restore are in flight when it is taken up
+		sc.Steps = append(sc.Steps, Step{At: rt, Act: "burst", N: []int{2 + r.Intn(6)}}, Step{At: rt, Act: "restore", V: []float64{float64(r.Intn(5))}}, Step{At: t + 3 + r.Intn(5), Act: "burst", N: []int{r.Intn(5)}})
 		t += 2*p.HeartbeatMs + r.Intn(3*p.HeartbeatMs)
 		sc.Steps = append(sc.Steps, Step{At: t, Act: "heal"}, Step{At: t + 1, Act: "restartall"})
 	}
